@@ -13,7 +13,13 @@ D5 the transport's hand-over rules (C14) re-applied,
 D6 the scan the master/worker message loops drive cannot be killed by a concurrent publisher,
 D7 the pending-futures map (written by enqueue on the callers' threads, read by the master loop) is never
    traversed live: a for statement / comprehension / callback walk over it is over a one-call snapshot or
-   under a lock every mutation holds.
+   under a lock every mutation holds,
+D8 the pending map owns its entries (a plain strong mapping, not a weak-value map or a self-evicting cache).
+Round 5: D2-outcome-from-this-message / D4-job-values-from-this-message (per-message freshness: every local behind
+   the completion of a future - resp. behind running a job and publishing its status - is assigned on every path
+   from the binding of that message to its use, so nothing of an earlier job is carried over);
+   D4-default-only-for-none on the enqueue and transport hops (a stand-in for data / context only where it is None);
+   the worker's status publishes are collected through the call graph of worker_loop, whatever module they live in.
 
 All function bodies are analysed in their normal form (sa/normal.py: private helpers inlined,
 named sub-expressions substituted), and the constructs are found by role (what they read /
@@ -528,6 +534,59 @@ class Provenance:
                         if self.g.dominated_by_edge(leaf.site, n.id, lab):
                             return True
         return False
+
+
+class ParamProvenance(Provenance):
+    """Provenance inside a function that hands a job's fields on (enqueue, a transport's publish): the role of the
+    message is played by the function's own parameters - the *entry value* of a parameter is the caller's value
+    ('message'), whatever else can reach a use is a stand-in."""
+
+    def __init__(self, g: CFG, fn: ast.AST, params: Set[str]):
+        self.g, self.loop, self.msg = g, fn, "<no message local>"
+        self.inside = {id(x) for x in ast.walk(fn)}
+        self.meta_keys = []
+        self.aliases = {}
+        self.params = set(params)
+
+    def entry_value_reaches(self, name: str, at: int) -> bool:
+        dn = {n.id for n in self.g.nodes if _node_defines(n, name)} - {at}
+        return at in self.g.reach([self.g.entry], blocked=dn, skip_labels={EXC, BASE}) or at == self.g.entry
+
+    def alts(self, e: ast.AST, at: int, conds: tuple = (), site: Optional[int] = None, depth: int = 0) -> List[Leaf]:
+        if isinstance(e, ast.Name) and e.id in self.params:
+            out: List[Leaf] = []
+            if self.entry_value_reaches(e.id, at):
+                out.append(Leaf(e, at, site, conds, "message"))
+            if reaching_defs(self.g, e.id, at):
+                out += super().alts(e, at, conds, site, depth)
+            return out
+        return super().alts(e, at, conds, site, depth)
+
+    def field_of(self, x: ast.AST, at: int) -> Optional[str]:
+        if not isinstance(x, ast.Name):
+            return None
+        defs = reaching_defs(self.g, x.id, at)
+        if x.id in self.params:
+            return x.id if not defs else None
+        attrs = set()
+        for d in defs:
+            vals = [v for nm, v in _bindings(d.ast) if nm == x.id] if d.kind == "stmt" else [None]
+            for v in vals:
+                attrs.add(self.field_of(v, d.id) if isinstance(v, ast.Name) else None)
+        return attrs.pop() if len(attrs) == 1 else None
+
+    def fields_read(self, leaves: List[Leaf]) -> Set[str]:
+        return {x.id for l in leaves if l.kind == "message" for x in ast.walk(l.expr) if isinstance(x, ast.Name) and x.id in self.params}
+
+
+def stand_in_not_for_none(prov: Provenance, e: ast.AST, at: int, fields: Optional[Set[str]] = None) -> Tuple[Optional[Leaf], Set[str]]:
+    """The first value *e* can have at node *at* that is not the job's own field (not computed from it) and is chosen
+    where that field is not known to be None - by a truthiness test (`x or Default()`, `if not x:`), by a test of
+    something else, or unconditionally on some path; None when every stand-in is for a missing (None) field only.
+    Also returns the fields the own values read."""
+    leaves = prov.alts(e, at)
+    own = prov.fields_read(leaves) if fields is None else fields
+    return next((l for l in leaves if l.kind != "message" and not prov.none_guarded(l, own)), None), own
 
 
 def job_loops_of(fn: ast.AST) -> List[Tuple[ast.AST, str, List[ast.AST]]]:
@@ -1195,12 +1254,36 @@ def run(repo: Repo, R: Report) -> None:
     wrel, wqn, wl = role_function(repo, W, "worker_loop", lambda f: bool(job_loops_of(f)), "message loop (`for msg in <subscription>` reading msg.metadata)")
     jobs = job_loops_of(wl)
     wmod = repo.module(wrel)
-    # every function of the worker module(s) in normal form (status publishes are looked for in all of them)
+    # every function of the worker side in normal form (status publishes are looked for in all of them): the
+    # functions of the worker module(s), and - by role, whatever module they live in - every function the worker
+    # entry point reaches through calls that itself publishes on a jobs.<id>.status channel (a private helper
+    # moved into a sibling module and imported back is still the worker's failure / success publish)
     wfuncs: List[ast.AST] = []
-    for wm in ([wmod] if wrel == W else [repo.module(W), wmod]):
+    wfunc_rel: Dict[int, str] = {}
+    wmods = [wmod] if wrel == W else [repo.module(W), wmod]
+    for wm in wmods:
         for qn, node in wm.defs.items():
             if isinstance(node, FuncNode):
                 wfuncs.append(wl if (wm.rel, qn) == (wrel, wqn) else nfunc(repo, wm.rel, qn, copyprop="all"))
+                wfunc_rel[id(wfuncs[-1])] = wm.rel
+    consulted_before = set(repo.consulted)
+    reached = repo.call_graph_closure([(repo.module(W), repo.func(W, "worker_loop"))] + ([(wmod, repo.func(wrel, wqn))] if (wrel, wqn) != (W, "worker_loop") else []))
+    repo.consulted = consulted_before  # only the modules in which a publishing function is found are consulted
+    for m, node, _path in sorted(reached.values(), key=lambda v: (v[0].rel, qualname_of(v[1]))):
+        if not isinstance(node, FuncNode) or any(m is wm for wm in wmods):
+            continue
+        if not any(call_attr(c) == "publish" for c in calls_in(node)):
+            continue
+        try:
+            nf = nfunc(repo, m.rel, qualname_of(node), copyprop="all")
+        except Exception:
+            continue
+        if any(is_status_publish(c, fn=nf) for c in calls_in(nf)):
+            repo.consulted.add(m.rel)
+            wfuncs.append(nf)
+            wfunc_rel[id(nf)] = m.rel
+            if not any(m is wm for wm in wmods):
+                wmods.append(m)
     R.assume(
         "logger calls, dict.get on message metadata, isinstance/all and the statements of the worker's failure handler up to its publish do not raise",
         "exactly-once hand-over of each message is the in-memory transport's contract (property C14)",
@@ -1589,15 +1672,15 @@ def run(repo: Repo, R: Report) -> None:
             R.check(n_succ > 0, r_res, wrel, wqn, f"success status omits metadata[{marker_key!r}]", "every status carries the failure marker: successful jobs complete exceptionally", 0)
             # polarity: can a written failure value make the master's test false?
             for fn, val, qn in fail_values:
-                truthy = _provably_truthy(repo, wmod, fn, val)
-                not_none = truthy or _provably_not_none(repo, wmod, fn, val)
+                truthy = _provably_truthy(repo, wmods, fn, val)
+                not_none = truthy or _provably_not_none(repo, wmods, fn, val)
                 if test_kind == "presence":
                     ok = not_none
                 elif test_kind == "truthiness":
                     ok = truthy
                 else:
                     ok = False
-                R.check(ok, r_res, W, qn, f"metadata[{marker_key!r}] = {norm(val)} vs master test ({test_kind})",
+                R.check(ok, r_res, wfunc_rel.get(id(fn), W), qn, f"metadata[{marker_key!r}] = {norm(val)} vs master test ({test_kind})",
                         f"a worker failure can write a value for which the master's {test_kind} test is false (e.g. an empty message): the failing job completes as a success", getattr(val, "lineno", 0))
     # the job id the master looks up is read from the status message's context; the result delivered is
     # (data, context) of that same message
@@ -1625,6 +1708,62 @@ def run(repo: Repo, R: Report) -> None:
                 m = status_msg if (sf is rf or status_msg in sparams) else (roots.pop() if len(roots) == 1 and next(iter(roots)) in sparams else status_msg)
                 ok = elts == [f"{m}.data", f"{m}.context"]
                 R.check(ok, r_corr, srel, sqn, norm(c)[:90], "the future's result is not (data, context) of the status message that was matched", c.lineno)
+
+    # ------------------------------------------------------------------ D2 (outcome decided from this message only)
+    r_own = R.rule("C15-D2-outcome-from-this-message", "every local the completion of a pending future depends on - the branch tests between the binding of a status message and set_result / set_exception / the removal of the entry, the values handed to them, and what those are computed from - is assigned on every path from the binding of that message to its use; a local that is assigned for some messages only still holds what an earlier status message (another job) left in it", 1)
+    own_sites: List[Tuple[str, str, ast.AST, str, object]] = []
+    n_own = 0
+    if status_msg is not None and status_msg not in sparams:
+        own_sites.append((srel, sqn, sf, status_msg, lambda n: is_set(n) or is_remove(n)))
+    elif status_msg is not None and sf is not rf:
+        # the completions live in a helper that receives the message: what the master loop hands to it
+        for c in calls_in(rf):
+            if (call_name(c) or "").split(".")[-1] == sf.name:  # type: ignore[attr-defined]
+                off = 1 if sparams and sparams[0] in ("self", "cls") and isinstance(c.func, ast.Attribute) else 0
+                idx = sparams.index(status_msg) - off
+                a = c.args[idx] if 0 <= idx < len(c.args) else kwarg(c, status_msg)
+                if isinstance(a, ast.Name):
+                    own_sites.append((Q, RUN, rf, a.id, lambda n, _c=c: n.ast is not None and n.kind == "stmt" and any(x is _c for x in ast.walk(n.ast))))
+                elif a is not None:
+                    n_own += 1
+                    R.ok(r_own, Q, RUN, norm(c)[:80], "the status message is handed to the completing helper without being kept in a local", c.lineno)
+    for orel, oqn, ofn, omsg, osink in own_sites:
+        g_own = CFG(ofn)
+        o_heads, carried, n_reads = carried_over_reads(g_own, omsg, osink)
+        if not o_heads:
+            continue
+        n_own += 1
+        for x, u, path in carried:
+            un = g_own.nodes[u]
+            R.violation(r_own, orel, oqn, f"`{x}` in `{norm(un.part if un.kind != 'stmt' and un.part is not None else un.ast)[:70]}` is not assigned for every message",
+                        f"the local `{x}` decides or carries the outcome of a pending job but there is a path from the binding of the status message `{omsg}` to this read on which it is not assigned "
+                        f"(it is assigned only for some messages): it then still holds the value left by an earlier status message - another job's - or by the code before the loop, "
+                        "so a job completes with another job's outcome (a healthy job fails with an earlier job's exception, or a failed one succeeds)", un.line,
+                        [f"L{g_own.nodes[i].line}: {g_own.nodes[i].text()[:100]}" for i in path])
+        if not carried:
+            R.ok(r_own, orel, oqn, f"{n_reads} read(s) behind the completion of a future are all assigned after `{omsg}` is bound", "", g_own.nodes[o_heads[0]].line)
+    if n_own == 0:
+        raise AnalysisError("run_forever: binding of the status message (the loop that takes status messages one by one) not found")
+    # the same on the worker side: what a job is run on and what is published for it is assigned for every job message
+    r_wown = R.rule("C15-D4-job-values-from-this-message", "every local the worker runs a job on or publishes for it (payload, pipeline, job id, result; the branch tests on the way and what they are computed from) is assigned on every path from the binding of that job's message to its use; a local assigned for some messages only carries an earlier job's value into this job", 1)
+    g_w = CFG(wl)
+
+    def job_sink(n) -> bool:
+        if n.ast is None or n.kind != "stmt":
+            return False
+        return any(call_attr(c) in ("Payload", "Pipeline", "submit", "process", "publish") or helper_always_publishes(repo, wmod, c) is not None for c in calls_in(n.ast))
+
+    w_heads, w_carried, w_reads = carried_over_reads(g_w, msg, job_sink)
+    for x, u, path in w_carried:
+        un = g_w.nodes[u]
+        R.violation(r_wown, wrel, wqn, f"`{x}` in `{norm(un.part if un.kind != 'stmt' and un.part is not None else un.ast)[:70]}` is not assigned for every job",
+                    f"the local `{x}` takes part in running this job or in publishing its status, but a path leads from the binding of the job message `{msg}` to this read on which it is not assigned: "
+                    "it still holds what an earlier job left in it (that job's data, context, pipeline or id), so this job's Future completes with a result computed from another job's input", un.line,
+                    [f"L{g_w.nodes[i].line}: {g_w.nodes[i].text()[:100]}" for i in path])
+    if not w_carried:
+        if not w_heads:
+            raise AnalysisError(f"{wqn}: binding of the job message not found in the CFG")
+        R.ok(r_wown, wrel, wqn, f"{w_reads} read(s) behind running a job and publishing its status are all assigned after `{msg}` is bound", "", g_w.nodes[w_heads[0]].line)
 
     # ------------------------------------------------------------------ D3
     r_ord = R.rule("C15-D3-register-before-publish", "the pending future is registered before the job is put on the queue", 1)
@@ -1665,6 +1804,49 @@ def run(repo: Repo, R: Report) -> None:
     i_id, i_pipe, i_data, i_ctx = 0, tuple_index(eparams[0] if eparams else None), tuple_index("data"), tuple_index("context")
     if None in (i_pipe, i_data, i_ctx):
         raise AnalysisError("enqueue: position of pipeline / data / context in the queued tuple not recognised")
+
+    # ------------------------------------------------------------------ D4 a default stands in only for None
+    # (the worker-side instance - Payload(msg.data, msg.context) - is recorded with D4-correlation above)
+    r_dflt = R.rule("C15-D4-default-only-for-none", "on every hop between the caller's enqueue arguments and the pipeline call in the worker (enqueue -> queued tuple, transport publish -> Message, message -> Payload) a default object stands in for a payload field (data, context) only where that field is None: a truthiness test (`x or Default()`, `if not x:`) also replaces a falsy-but-real input - an empty data collection, a context collection with global keys and no items - and the job no longer runs on its own payload", 2)
+    eprov = ParamProvenance(ge, enq, set(eparams) | {a.arg for a in enq.args.kwonlyargs})  # type: ignore[attr-defined]
+    t_at = _node_of(ge, tup)
+    if t_at is None:
+        raise AnalysisError("enqueue: the queued tuple is not evaluated at a CFG node")
+    for pname, idx in (("data", i_data), ("context", i_ctx)):
+        el = tup.elts[idx]  # type: ignore[union-attr,index]
+        bad_l, _own = stand_in_not_for_none(eprov, el, t_at, {pname})
+        R.check(bad_l is None, r_dflt, erel, eqn, f"queued {pname} is the caller's `{pname}` (a default only for None)",
+                f"`{norm(bad_l.expr)[:70] if bad_l is not None else ''}` is queued in place of the caller's `{pname}` where `{pname}` is not known to be None (e.g. whenever it is falsy): "
+                "a falsy-but-real input - a context collection with global keys and no items, an empty data collection - is swapped for a default object before the job is even published, "
+                "so the job does not run on its own payload and its Future completes with a result that differs from the direct run",
+                getattr(bad_l.expr, "lineno", put_call.lineno) if bad_l is not None else put_call.lineno)
+    # transport hop: the Message a publish files carries the data / context it was called with
+    tmod_ = repo.module(T)
+    for tqn, tnode in sorted(tmod_.defs.items()):
+        if not (isinstance(tnode, FuncNode) and tnode.name == "publish" and "." in tqn):
+            continue
+        pf = nfunc(repo, T, tqn, copyprop="all")
+        pparams = {a.arg for a in pf.args.posonlyargs + pf.args.args + pf.args.kwonlyargs if a.arg not in ("self", "cls")}  # type: ignore[attr-defined]
+        gp = CFG(pf, may_raise=lambda part: set())
+        pprov = ParamProvenance(gp, pf, pparams)
+        for c in calls_in(pf):
+            r = repo.resolve_name(tmod_, c.func, c) if isinstance(c.func, (ast.Name, ast.Attribute)) else None
+            if r is None or not isinstance(r[1], ast.ClassDef):
+                continue
+            fields_ = [st.target.id for st in r[1].body if isinstance(st, ast.AnnAssign) and isinstance(st.target, ast.Name)]
+            bound = {f: a for f, a in zip(fields_, c.args)}
+            bound.update({k.arg: k.value for k in c.keywords if k.arg})
+            at_c = _node_of(gp, c)
+            for fname in ("data", "context"):
+                if fname not in bound or fname not in fields_ or at_c is None:
+                    continue
+                bad_l, own = stand_in_not_for_none(pprov, bound[fname], at_c)
+                if not own:
+                    continue  # not computed from a parameter at all: nothing a default could stand in for
+                R.check(bad_l is None, r_dflt, T, tqn, f"{r[1].name}.{fname} is publish's `{'/'.join(sorted(own))}` (a default only for None)",
+                        f"`{norm(bad_l.expr)[:70] if bad_l is not None else ''}` is filed in place of the published {fname} where it is not known to be None (e.g. whenever it is falsy): "
+                        "an empty data collection / a context collection without items is swapped for a default object in transit, so the job does not run on the payload that was queued",
+                        getattr(bad_l.expr, "lineno", c.lineno) if bad_l is not None else c.lineno)
 
     # ------------------------------------------------------------------ D4 (remaining hops)
     # the function that broadcasts a dequeued job: the tuple taken from the queue is unpacked and published on
@@ -1729,10 +1911,10 @@ def run(repo: Repo, R: Report) -> None:
                 t = channel_template(c, fn)
                 jv = t[1][0] if t else None
                 writes = [w for w in calls_in(fn) if call_attr(w) == "set_value" and isinstance(w.func, ast.Attribute) and dotted_name(w.func.value) == cname and w.args and isinstance(w.args[0], ast.Constant) and w.args[0].value == ctx_key and len(w.args) > 1 and dotted_name(w.args[1]) == jv]
-                R.check(bool(writes), r_corr, W, qualname_of(fn), norm(c)[:70] + f" [context[{ctx_key!r}]]",
+                R.check(bool(writes), r_corr, wfunc_rel.get(id(fn), W), qualname_of(fn), norm(c)[:70] + f" [context[{ctx_key!r}]]",
                         f"a status message is published whose context does not carry this job's id under {ctx_key!r}: the master cannot find the pending future", c.lineno)
                 if writes and cname:
-                    _annotation_reaches_publish(R, r_corr, fn, c, cname, ctx_key, jv, writes)
+                    _annotation_reaches_publish(R, r_corr, fn, c, cname, ctx_key, jv, writes, wfunc_rel.get(id(fn), W))
     # payload of the job is built from this message: every definition of the two payload values that can reach
     # the call lies inside the job body and is computed from this message, or is a fresh default object that is
     # chosen only where the message's own field is None
@@ -1800,6 +1982,9 @@ def run(repo: Repo, R: Report) -> None:
 
     # ------------------------------------------------------------------ D7 the pending map is never walked live
     pending_walk_rule(repo, R, pend, [Q, erel, srel, crel])
+
+    # ------------------------------------------------------------------ D8 the pending map keeps the futures
+    pending_map_kind_rule(repo, R, pend, erel if "." in eqn else Q, eqn if "." in eqn else ENQ)
 
 
 def _message_loops(fn: ast.AST) -> List[ast.AST]:
@@ -2196,7 +2381,291 @@ def pending_walk_rule(repo: Repo, R: Report, pend: str, rels: List[str]) -> None
         R.ok(r_walk, Q, "QueueSemantivaOrchestrator", f"`{pend}` is never traversed ({len(mutations)} single-step mutation(s), {len(scope)} function(s) looked at)", "", 0)
 
 
-def _annotation_reaches_publish(R: Report, rule, fn: ast.AST, pub: ast.Call, cname: str, ctx_key, jv: Optional[str], writes: List[ast.Call]) -> None:
+def _node_parts(n) -> List[ast.AST]:
+    """The expressions / statement evaluated at a CFG node (not the bodies of a compound statement)."""
+    a = n.ast
+    if a is None:
+        return []
+    if n.kind == "stmt":
+        return [] if isinstance(a, FuncNode + (ast.ClassDef,)) else [a]
+    if n.kind == "for" and isinstance(a, (ast.For, ast.AsyncFor)):
+        return [a.iter, a.target]
+    if n.kind == "with" and isinstance(a, (ast.With, ast.AsyncWith)):
+        return [it.context_expr for it in a.items] + [it.optional_vars for it in a.items if it.optional_vars is not None]
+    if n.kind == "except":
+        return [a.type] if isinstance(a, ast.ExceptHandler) and a.type is not None else []
+    return [n.part] if n.part is not None else []
+
+
+def _comprehension_names(part: ast.AST) -> Set[int]:
+    """ids of the Name nodes inside *part* that belong to a comprehension's own scope (its targets and their uses)."""
+    out: Set[int] = set()
+    for c in walk_no_nested(part):
+        if isinstance(c, (ast.ListComp, ast.SetComp, ast.DictComp, ast.GeneratorExp)):
+            bound = {x.id for gen in c.generators for x in ast.walk(gen.target) if isinstance(x, ast.Name)}
+            out |= {id(x) for x in ast.walk(c) if isinstance(x, ast.Name) and x.id in bound}
+    return out
+
+
+def _node_defines(n, name: str) -> bool:
+    """The node binds the local *name*: assignment (tuple targets, augmented, annotated with a value), for / with /
+    except target, assignment expression, def / class / import of that name."""
+    a = n.ast
+    if a is None:
+        return False
+    if n.kind == "except":
+        return isinstance(a, ast.ExceptHandler) and a.name == name
+    if n.kind == "stmt":
+        if isinstance(a, FuncNode + (ast.ClassDef,)):
+            return a.name == name
+        if isinstance(a, ast.AnnAssign) and a.value is None:
+            return False
+        if isinstance(a, (ast.Import, ast.ImportFrom)):
+            return any((al.asname or al.name.split(".")[0]) == name for al in a.names)
+    return any(isinstance(x, ast.Name) and x.id == name and isinstance(x.ctx, ast.Store) and id(x) not in _comprehension_names(part) for part in _node_parts(n) for x in walk_no_nested(part))
+
+
+def _node_reads(n) -> Set[str]:
+    if n.kind == "stmt" and isinstance(n.ast, ast.AugAssign) and isinstance(n.ast.target, ast.Name):
+        return {n.ast.target.id} | {x.id for x in walk_no_nested(n.ast.value) if isinstance(x, ast.Name) and isinstance(x.ctx, ast.Load)}
+    return {x.id for part in _node_parts(n) for x in walk_no_nested(part) if isinstance(x, ast.Name) and isinstance(x.ctx, ast.Load) and id(x) not in _comprehension_names(part)}
+
+
+def carried_over_reads(g: CFG, msg: str, is_sink) -> Tuple[List[int], List[Tuple[str, int, List[int]]], int]:
+    """Per-message freshness, decided on the CFG of the function that takes the messages one by one (*msg*: the
+    local the message is bound to; *is_sink*: the nodes that act on it - complete a Future, publish a status).
+    Starting from the names read by the sinks and by every branch test that decides which sinks (and which of the
+    assignments feeding them) are reached - a test both outcomes of which lead to the same ones decides nothing -
+    and following each name back through the assignments that can give it its value, a read
+    is *carried over* when the name is assigned somewhere in the message loop (so it is not a loop invariant) and
+    yet a path leads from the binding of this message to the read without passing any assignment of it (an
+    assignment that raises has not assigned): the value is then whatever an earlier message - another job - or
+    the code before the loop left in the local.  Returns (binding nodes, [(name, reading node, path)], number of
+    reads examined)."""
+    heads = [n.id for n in g.nodes if n.kind in ("for", "stmt", "with", "if", "while") and _node_defines(n, msg)]
+    if not heads:
+        return [], [], 0
+    # the loop the messages are taken in: the innermost loop statement around (or at) each binding
+    inside: Set[int] = set()
+    for h in heads:
+        a = g.nodes[h].ast
+        loop = a if isinstance(a, (ast.For, ast.AsyncFor)) else next((x for x in ancestors(a) if isinstance(x, (ast.For, ast.AsyncFor, ast.While))), None)
+        if loop is not None:
+            inside |= {id(x) for x in ast.walk(loop)}
+    if not inside:
+        return heads, [], 0  # the message is not taken in a loop: nothing outlives it
+
+    def starts_of(h: int) -> List[int]:
+        return [t for t, lab in g.succ[h] if lab not in (EXC, BASE) and not (g.nodes[h].kind == "for" and lab == "F")]
+
+    # the handling of one message: from its binding up to the next binding
+    region: Set[int] = set()
+    todo = [t for h in heads for t in starts_of(h)]
+    while todo:
+        n = todo.pop()
+        if n in region or n in heads:
+            continue
+        region.add(n)
+        todo += [t for t, _l in g.succ[n]]
+    sinks = {n for n in region if is_sink(g.nodes[n])}
+    # what matters: the sinks, the assignments their values come from, and the branch tests that decide which of
+    # those are reached (a test both outcomes of which lead to the same sinks and assignments decides nothing)
+    reach_memo: Dict[int, Set[int]] = {}
+
+    def reach_in_region(n: int) -> Set[int]:
+        if n not in reach_memo:
+            got: Set[int] = set()
+            todo2 = [n]
+            while todo2:
+                k = todo2.pop()
+                if k in got or k not in region:
+                    continue
+                got.add(k)
+                todo2 += [t for t, _l in g.succ[k]]
+            reach_memo[n] = got
+        return reach_memo[n]
+
+    relevant: Set[int] = set(sinks)
+    judged: Set[int] = set()
+    work: List[Tuple[str, int]] = [(x, n) for n in sorted(sinks) for x in sorted(_node_reads(g.nodes[n]))]
+
+    def deciding_branches() -> List[int]:
+        out_b = []
+        for n in sorted(region - judged):
+            node = g.nodes[n]
+            if node.kind not in ("if", "while", "for"):
+                continue
+            per_edge = [frozenset(reach_in_region(t) & relevant) for t, lab in g.succ[n] if lab in ("T", "F")]
+            if len(per_edge) == 2 and per_edge[0] != per_edge[1]:
+                out_b.append(n)
+        return out_b
+
+    defs_of: Dict[str, List[int]] = {}
+    seen: Set[Tuple[str, int]] = set()
+    out: List[Tuple[str, int, List[int]]] = []
+    while True:
+        if not work:
+            fresh_b = deciding_branches()
+            if not fresh_b:
+                break
+            for b in fresh_b:
+                judged.add(b)
+                work += [(x, b) for x in sorted(_node_reads(g.nodes[b]))]
+            continue
+        x, u = work.pop()
+        if (x, u) in seen or x == msg:
+            continue
+        seen.add((x, u))
+        if x not in defs_of:
+            defs_of[x] = [n.id for n in g.nodes if _node_defines(n, x)]
+        dn = defs_of[x]
+        inner = [d for d in dn if g.nodes[d].ast is not None and id(g.nodes[d].ast) in inside]
+        if not inner or any(h in dn for h in heads):
+            continue  # never assigned in the loop (a loop invariant / parameter / global), or bound together with the message
+        walrus_here = any(isinstance(y, ast.NamedExpr) and isinstance(y.target, ast.Name) and y.target.id == x for part in _node_parts(g.nodes[u]) for y in walk_no_nested(part))
+        # a path from the binding of this message to the read that passes no assignment of x
+        prev: Dict[int, Optional[int]] = {}
+        todo = []
+        for h in heads:
+            for t in starts_of(h):
+                if t not in prev:
+                    prev[t] = None
+                    todo.append(t)
+        hit = False
+        while todo and not hit and not walrus_here:
+            n = todo.pop(0)
+            if n == u:
+                hit = True
+                break
+            if n in heads:
+                continue
+            for t, lab in g.succ[n]:
+                if n in dn and lab not in (EXC, BASE):
+                    continue  # the assignment took place
+                if t not in prev:
+                    prev[t] = n
+                    todo.append(t)
+        if hit:
+            path: List[int] = []
+            cur: Optional[int] = u
+            while cur is not None and len(path) < 10000:
+                path.append(cur)
+                cur = prev.get(cur)
+            out.append((x, u, list(reversed(path))))
+        # the values x can have at u come from these assignments: what they read has to be this message's too
+        for d in inner:
+            if d == u and not walrus_here:
+                continue
+            blocked = {o for o in dn if o != d and o != u}
+            if u in g.reach([t for t, lab in g.succ[d] if lab not in (EXC, BASE)], blocked=blocked) or d == u:
+                relevant.add(d)
+                work += [(y, d) for y in sorted(_node_reads(g.nodes[d])) if y != x or isinstance(g.nodes[d].ast, ast.AugAssign)]
+    return heads, out, len(seen)
+
+
+STRONG_MAPS = {"dict", "collections.defaultdict", "collections.OrderedDict", "collections.UserDict", "defaultdict", "OrderedDict", "UserDict"}
+
+
+def pending_map_kind_rule(repo: Repo, R: Report, pend: str, erel: str, eqn: str) -> None:
+    """D8: between enqueue() and the status message the pending map is the orchestrator's only reference to the
+    Future it handed out, and the only way from a job id back to it.  The caller is free to drop its own reference
+    (`enqueue(.., return_future=True).add_done_callback(cb)`), so the map has to *own* its entries: a mapping that
+    holds its values (or keys) weakly, or that evicts entries on its own (bounded / expiring caches), loses the
+    Future of a job that is still running - the status then finds no entry, the Future never completes, its
+    callbacks never run; and an entry that can vanish between the master's membership test and its subscript kills
+    the master loop with KeyError.  Necessary condition: every object bound to the pending-map attribute is a
+    plain strong mapping (dict display / comprehension, dict, defaultdict, OrderedDict, a repo class derived from
+    one of them).  The attribute is found by role (*pend*: where enqueue registers the Future it returns)."""
+    rule = R.rule("C15-D8-pending-map-owns-futures", "every object bound to the pending-futures map (the attribute in which enqueue registers the Future it returns) is a plain strong mapping - dict display / dict / defaultdict / OrderedDict or a class derived from them - that keeps an entry until the master removes it; a weak-value / weak-key mapping or a self-evicting cache drops the Future of a running job as soon as the caller holds no other reference, and that job's Future never completes", 1)
+    if "." not in pend:
+        raise AnalysisError(f"pending map `{pend}` is not an attribute: its construction is not understood")
+    attr = pend.split(".")[-1]
+    mod = repo.module(erel)
+    cls_qn = eqn.rsplit(".", 1)[0] if "." in eqn else None
+    owners = [(mod, cls_qn)] if cls_qn else []
+    if cls_qn and isinstance(mod.defs.get(cls_qn), ast.ClassDef):
+        owners += [(m, qualname_of(c)) for m, c in repo.mro(mod, mod.defs[cls_qn])[1:]] + [(m, qualname_of(c)) for m, c in repo.subclasses(mod.defs[cls_qn])]  # type: ignore[arg-type]
+
+    def external(m, f: ast.AST) -> Optional[str]:
+        d = dotted_name(f)
+        if d is None:
+            return None
+        head, _, rest = d.partition(".")
+        tgt = m.imports.get(head)
+        return (tgt + ("." + rest if rest else "")) if tgt else d
+
+    def verdict(m, fn: ast.AST, v: Optional[ast.AST], depth: int = 0) -> Tuple[Optional[bool], str]:
+        """(True strong / False loses entries / None not understood, reason)."""
+        if v is None or depth > 4:
+            return None, "value not understood"
+        if isinstance(v, (ast.Dict, ast.DictComp)):
+            return True, ""
+        if isinstance(v, ast.IfExp):
+            a, b = verdict(m, fn, v.body, depth + 1), verdict(m, fn, v.orelse, depth + 1)
+            return (a if a[0] is not True else b)
+        if isinstance(v, ast.BoolOp):
+            rs = [verdict(m, fn, x, depth + 1) for x in v.values]
+            return next((r for r in rs if r[0] is False), next((r for r in rs if r[0] is None), rs[0]))
+        if isinstance(v, ast.NamedExpr):
+            return verdict(m, fn, v.value, depth + 1)
+        if isinstance(v, ast.Name):
+            vals = [b for st in walk_no_nested(fn) for nm, b in _bindings(st) if nm == v.id]
+            if vals and all(b is not None for b in vals):
+                rs = [verdict(m, fn, b, depth + 1) for b in vals]
+                return next((r for r in rs if r[0] is False), next((r for r in rs if r[0] is None), rs[0]))
+            return None, f"`{v.id}` is not bound to a mapping built here"
+        if isinstance(v, ast.Call):
+            r = repo.resolve_name(m, v.func, v) if isinstance(v.func, (ast.Name, ast.Attribute)) else None
+            if r is not None and isinstance(r[1], ast.ClassDef):
+                for bm, bc in repo.mro(r[0], r[1]):
+                    for b in bc.bases:
+                        e = external(bm, b)
+                        if e and (e.startswith("weakref.") or e.split(".")[-1].startswith("Weak")):
+                            return False, f"class {r[1].name} derives from {e}, which holds its entries weakly"
+                        if e in STRONG_MAPS or e in ("typing.Dict", "Dict"):
+                            return True, ""
+                return None, f"class {r[1].name} is not derived from a built-in mapping"
+            e = external(m, v.func)
+            if e is None:
+                return None, "constructor not understood"
+            last = e.split(".")[-1]
+            if e.startswith("weakref.") or last.startswith("Weak"):
+                return False, f"{e} holds its {'values' if 'Value' in last else 'keys' if 'Key' in last else 'entries'} weakly: an entry disappears as soon as nothing else refers to the Future"
+            if e in STRONG_MAPS:
+                return True, ""
+            if any(t in last.lower() for t in ("cache", "lru", "ttl", "expiring")):
+                return False, f"{e} evicts entries on its own: the Future of a job that is still running can be dropped"
+            return None, f"constructor `{e}` is not a known mapping"
+        return None, "value not understood"
+
+    n = 0
+    for m, cqn in owners:
+        for qn, node in m.defs.items():
+            if not isinstance(node, FuncNode) or not (cqn and qn.startswith(cqn + ".")) or qn.count(".") != cqn.count(".") + 1:
+                continue
+            if not any(isinstance(x, ast.Attribute) and x.attr == attr and isinstance(x.ctx, ast.Store) for x in walk_no_nested(node)):
+                continue
+            try:
+                nf = nfunc(repo, m.rel, qn, copyprop="all")
+            except Exception:
+                nf = node
+            for st in walk_no_nested(nf):
+                tgts = st.targets if isinstance(st, ast.Assign) else [st.target] if isinstance(st, (ast.AnnAssign, ast.AugAssign)) and getattr(st, "value", None) is not None else []
+                for t in tgts:
+                    if isinstance(t, ast.Attribute) and t.attr == attr and isinstance(t.value, ast.Name) and t.value.id in ("self", "cls"):
+                        ok, why = verdict(m, nf, st.value)
+                        if ok is None:
+                            raise AnalysisError(f"{qn}: what is bound to the pending map `{pend}` is not understood ({why}): `{norm(st)[:80]}`")
+                        n += 1
+                        R.check(ok, rule, m.rel, qn, norm(st)[:100],
+                                f"the pending-futures map `{pend}` does not own its entries - {why}. The caller may keep no reference of its own (enqueue(..).add_done_callback(cb)): the entry of a job that is still running disappears, "
+                                "its status message finds no pending Future and the Future never completes (and an entry vanishing between the master's `in` test and the subscript raises KeyError in the master loop, after which no Future completes)",
+                                st.lineno)
+    if n == 0:
+        raise AnalysisError(f"no assignment that creates the pending map `{pend}` found in the class of enqueue")
+
+
+def _annotation_reaches_publish(R: Report, rule, fn: ast.AST, pub: ast.Call, cname: str, ctx_key, jv: Optional[str], writes: List[ast.Call], rel: str = W) -> None:
     """D4, last hop on the worker side: the master finds the pending Future only through context[<ctx_key>] of the
     status message, and the context of a finished job is whatever the pipeline left in it (a chained job or a
     re-used session context already carries an older job's id).  So on *every* path to the status publish the
@@ -2242,7 +2711,7 @@ def _annotation_reaches_publish(R: Report, rule, fn: ast.AST, pub: ast.Call, cna
     what = (f"a path reaches the status publish on which context[{ctx_key!r}] was not (or not last) set to this job's id `{jv}` - the annotation is skipped by a branch, "
             f"overwritten, or the context is rebound after it; the published context then carries whatever the pipeline / an earlier job left under {ctx_key!r} "
             "(a chained job's input context already has one): the master looks up a foreign id, drops the status or completes another job's Future")
-    R.check(not bad, rule, W, qualname_of(fn), norm(writes[0])[:70] + " [on every path to the publish]", what, writes[0].lineno,
+    R.check(not bad, rule, rel, qualname_of(fn), norm(writes[0])[:70] + " [on every path to the publish]", what, writes[0].lineno,
             g.path_to(seen, bad[0]) if bad else None)
 
 
@@ -2280,10 +2749,15 @@ def _value_leaves(repo: Repo, mod, fn: ast.AST, val: ast.AST, depth: int = 0) ->
         if val.id in params:
             idx = params.index(val.id)
             sites = []
-            for f2 in [n for n in mod.defs.values() if isinstance(n, FuncNode)]:
-                for c in calls_in(f2):
-                    if call_attr(c) == fn.name and isinstance(c.func, ast.Name):  # type: ignore[attr-defined]
-                        sites.append((f2, c.args[idx] if idx < len(c.args) else kwarg(c, val.id)))
+            origin = getattr(fn, "_normal_of", fn)
+            for m2 in (mod if isinstance(mod, (list, tuple)) else [mod]):
+                for f2 in [n for n in m2.defs.values() if isinstance(n, FuncNode)]:
+                    for c in calls_in(f2):
+                        # a call of this helper: by resolution (it may be imported from another module, under
+                        # another name), or by its name where the call cannot be resolved
+                        targets = repo.resolve_call(m2, c) if isinstance(c.func, ast.Name) else []
+                        if any(t is origin or t is fn for _tm, t in targets) or (not targets and call_attr(c) == fn.name and isinstance(c.func, ast.Name)):  # type: ignore[attr-defined]
+                            sites.append((f2, c.args[idx] if idx < len(c.args) else kwarg(c, val.id)))
             if not sites:
                 return None
             for f2, a in sites:
